@@ -3,7 +3,10 @@
     Conventions.
     - The group is the abstract [group_ops]; [g_enc] is the SEC1 compressed encoding (1 byte for the
       identity, 33 bytes otherwise).  The code's [encode_point]/[to_affine().to_bytes()] copies that
-      encoding into a zeroed 33-byte array: [enc33].  [decode_point] is [g_dec] (on 33-byte strings).
+      encoding into a zeroed 33-byte array: [enc33].  [decode_point] is [g_dec] (on 33-byte strings);
+      NB k256's GroupEncoding::from_bytes accepts 33 zero bytes as the identity, so the real
+      [decode_point (encode_point p) = Some p] for EVERY p (premise [enc33_roundtrip] of the theorems;
+      in the correspondence [g_dec] is the real [decode_point], see harness/src/c05.rs).
     - A message is a list of pairs of 33-byte strings: entry [idx] = ([r_list[idx][0]], [r_list[idx][1]])
       (resp. [m_b_list]); flattened it is the #[repr(C)] byte image of the message.
     - Random tapes are explicit, in the order the code draws from the rng:
